@@ -16,7 +16,8 @@ from tools import partition as P
 from tools import vlib
 
 PROPS_VO = "theories/Props/C42.vo"
-THEOREMS = ["C42_enemy_merge_oracle_independent_partial", "C42_enemy_merge_closed_form"]
+THEOREMS = ["C42_enemy_merge_oracle_independent_partial", "C42_enemy_merge_closed_form",
+            "C42_partition_model_oracle_independent"]
 CRATE, GROUP, BIN = "h_partition", "dfir", "h_partition"
 NPROC = 3
 
@@ -54,7 +55,7 @@ def run_all(ctx, binary, cases):
 
 def main(ctx):
     proof_fail = ["hygiene: " + p for p in vlib.hygiene()]
-    ok, out = vlib.coq_make(["theories/Partition/Oracle.vo"])
+    ok, out = vlib.coq_make(["theories/Partition/Oracle.vo", "theories/Partition/FullO.vo"])
     if not ok:
         print(out[-3000:])
         print("FRAMEWORK-ERROR: model does not build")
@@ -158,10 +159,11 @@ def main(ctx):
         "explanation": ("Determinism of the Rust compiler pipeline is decided by replay comparison, not by proof: "
                         "each program compiled 4x in one process and in %d further processes, all renderings "
                         "(graph JSON, generated token-stream text, mermaid, dot, surface syntax, diagnostics) "
-                        "byte-identical.  The Coq part proves only the mechanism for the single hash-iteration "
-                        "site found by the source scan (try_merge's enemy-set merge is independent of the "
-                        "iteration order; theorem C42_enemy_merge_oracle_independent_partial); all other hash "
-                        "containers are keyed-access only (scan compared with corpus/C42/hash_iteration_sites.json). "
+                        "byte-identical.  The Coq part proves the mechanism: the source scan finds a single hash-iteration "
+                        "site (try_merge's enemy-set merge); with its iteration order chosen by an arbitrary oracle the "
+                        "WHOLE executable partition model (the one C18 compares with every real output) returns the same "
+                        "graph (C42_partition_model_oracle_independent); all other hash containers are keyed-access only "
+                        "(scan compared with corpus/C42/hash_iteration_sites.json). as_code is not modelled. "
                         "Not covered: Hydro (hydro_lang) flows and the content-hash naming of generated crates; "
                         "memory-layout independence is only sampled through ASLR/allocator perturbation.") % NPROC,
         "obligations": pr["obligations"], "discharged": pr["discharged"],
